@@ -60,6 +60,30 @@ class EdgeMap:
         return self
 
 
+def _num_eq(a, b):
+    """an expression whose symbolic form is not recognised (e.g. a cotangent obtained from a square
+    root instead of the dot / cross quotient) is accepted when it takes the expected value at the
+    scenario's representative coordinates, which are generic; the acute, right and obtuse cases are
+    separate scenarios, so a formula valid for some of them only still fails on the others"""
+    a, b = Dual.of(a), Dual.of(b)
+    try:
+        return abs(a.rep - b.rep) <= 1e-9 * max(abs(a.rep), abs(b.rep), 1e-300)
+    except (TypeError, OverflowError):
+        return False
+
+
+class EdgeSet:
+    """std::unordered_set of edges with the repository's own hash / equality functors: membership is
+    decided by interpreting the equality functor, iteration order is unspecified (both orders run)"""
+
+    def __init__(self, equal_fn):
+        self.items = []
+        self.equal_fn = equal_fn
+
+    def __deepcopy__(self, memo):
+        return self
+
+
 class OrderedSet:
     """std::set of comparable values (pairs of node ids): kept sorted, iterated in order"""
 
@@ -92,6 +116,11 @@ class MeshWorld(ADIWorld):
     def sym_unop(self, op, a):
         if op == "sqrt":
             return self.sqrt(a)
+        if op in ("abs", "fabs"):
+            # decided on the representative, like std::max / std::min: the scenarios fix the sign of
+            # every coordinate expression (acute, right and obtuse triangles are separate scenarios)
+            a = Dual.of(a)
+            return a if a.rep >= 0 else a.neg()
         return ADIWorld.sym_unop(self, op, a)
 
     def sqrt(self, a):
@@ -118,7 +147,7 @@ class MeshWorld(ADIWorld):
         if isinstance(v, EdgeMap):
             seq = list(v.entries)
             return seq[::-1] if self.reverse_iteration else seq
-        if isinstance(v, NodeSet):
+        if isinstance(v, (NodeSet, EdgeSet)):
             seq = list(v.items)
             return seq[::-1] if self.reverse_iteration else seq
         if isinstance(v, OrderedSet):
@@ -127,6 +156,8 @@ class MeshWorld(ADIWorld):
 
     def default_value(self, it, ts):
         base = ts.replace("const ", "").strip()
+        if base.startswith("std::unordered_set<") and "tri_edge_equal" in base and self.equal_fn is not None:
+            return EdgeSet(self.equal_fn)
         if base.startswith("std::unordered_set<"):
             return NodeSet()
         if base.startswith("std::set<"):
@@ -149,6 +180,8 @@ class MeshWorld(ADIWorld):
             ts = fn.type(call.get("t")).replace("const ", "")
             if ts.startswith("std::unordered_map<") and "tri_edge" in ts and not args:
                 return EdgeMap(self.equal_fn)
+            if ts.startswith("std::unordered_set<") and "tri_edge_equal" in ts and self.equal_fn is not None and not args:
+                return EdgeSet(self.equal_fn)
             if ts.startswith("std::unordered_set<") and not args:
                 return NodeSet()
             if ts.startswith("std::set<") and not args:
@@ -213,6 +246,27 @@ class MeshWorld(ADIWorld):
                     return (e, True)
                 if name == "size":
                     return len(o.entries)
+            if isinstance(o, EdgeSet):
+                if name in ("insert", "emplace"):
+                    key = V(0) if len(args) == 1 else tuple(V(i) for i in range(len(args)))
+                    for e in o.items:
+                        if it.truth(it.call_fn(o.equal_fn, Obj("fastscapelib::detail::tri_edge_equal", {}), [e, key])):
+                            return (e, False)
+                    o.items.append(key)
+                    return (key, True)
+                if name == "count":
+                    key = V(0)
+                    return 1 if any(it.truth(it.call_fn(o.equal_fn, Obj("fastscapelib::detail::tri_edge_equal", {}),
+                                                        [e, key])) for e in o.items) else 0
+                if name == "size":
+                    return len(o.items)
+                if name == "empty":
+                    return not o.items
+                if name == "clear":
+                    del o.items[:]
+                    return None
+            if isinstance(o, (EdgeMap, EdgeSet, NodeSet, OrderedSet)) and name in ("reserve", "rehash", "max_load_factor"):
+                return None
             if isinstance(o, Entry) and name in ("operator->", "operator*"):
                 return o
             if isinstance(o, OrderedSet):
@@ -563,10 +617,13 @@ def run(db, chk):
                 D = cross(sub(p1, p0), sub(p2, p0))                       # twice the signed area
                 a2 = B("/", B("*", D, D), 4)
                 root = [s for (s, a) in w.roots if a.same(a2)]
-                if not root:
-                    bad.append("no square root of ((p1-p0)x(p2-p0))^2/4 is taken for triangle %r" % (t,))
-                    break
-                S = root[0]
+                if root:
+                    S = root[0]
+                else:
+                    # the code does not take that square root (e.g. it uses |cross| / 2): the triangle's
+                    # area is |D| / 2, the sign being that of the scenario's representative coordinates
+                    half = B("/", D, 2)
+                    S = half if Dual.of(half).rep >= 0 else Dual.of(half).neg()
                 # circumcentre
                 b_, c_ = sub(p1, p0), sub(p2, p0)
                 bb, cc = dot(b_, b_), dot(c_, c_)
@@ -600,9 +657,9 @@ def run(db, chk):
                             bad.append("isolated node %d has area %r" % (i, got))
                         continue
                     acc = B("+", acc, got)
-                    if not Dual.of(got).same(want[i]):
+                    if not (Dual.of(got).same(want[i]) or _num_eq(got, want[i])):
                         bad.append("area of node %d is not the sum of its circumcentric shares" % i)
-                if not Dual.of(acc).same(total):
+                if not (Dual.of(acc).same(total) or _num_eq(acc, total)):
                     bad.append("the node areas do not sum to the area of the triangles")
         chk.ob("C18-M3", "%s (%d nodes)" % (label, n), not bad, where=set_ar.ploc, function=set_ar.bn,
                construct="areas:%s" % label, detail="; ".join(bad[:3])[:500])
